@@ -23,7 +23,7 @@ type CertSpec struct {
 }
 
 // Windows: every validity-window class the properties speak about.
-var Windows = []string{"current", "current", "current", "past", "future", "zero", "epoch-forever", "forever", "inverted", "vb-2^63", "va-2^63", "va-forever", "one-second-ago"}
+var Windows = []string{"current", "current", "current", "past", "future", "zero", "epoch-forever", "forever", "inverted", "vb-2^63", "va-2^63", "va-forever", "one-second-ago", "soon", "just-expired"}
 
 func windowAt(kind string, t uint64) (va, vb uint64) {
 	const forever = ^uint64(0)
@@ -50,6 +50,10 @@ func windowAt(kind string, t uint64) (va, vb uint64) {
 		return 1 << 63, forever
 	case "va-forever":
 		return forever, forever
+	case "soon": // not valid yet: becomes valid half a minute from now
+		return t + 30, t + 7200
+	case "just-expired": // expired twenty seconds ago (one-second-ago is forty)
+		return t - 7200, t - 20
 	case "lapse": // valid now, lapses two seconds from now
 		return t - 3600, t + 2
 	case "dawn": // becomes valid three seconds from now
@@ -570,7 +574,7 @@ func ScenarioPlans(r *mrand.Rand, pool *Pool, n int) []*Plan {
 		k := uint64(1 + r.Intn(nk))
 		k2 := uint64(1 + (int(k)+r.Intn(nk-1))%nk)
 		p := &Plan{NoUp: r.Intn(2) == 0, Comp: core.Pick(r, 0, 1, 2), Data: map[uint64][]byte{1: []byte("data-1"), 2: []byte("data-2")}}
-		win := core.Pick(r, "current", "forever", "epoch-forever", "vb-2^63", "past", "future", "zero", "inverted", "va-2^63")
+		win := core.Pick(r, "current", "forever", "epoch-forever", "vb-2^63", "past", "future", "zero", "inverted", "va-2^63", "soon", "just-expired")
 		kid, kk := GenKeyID(r)
 		c := CertSpec{ID: pool.ReserveID(), KeyID: k, Window: win, KidText: kid, KidKind: kk}
 		kid2, kk2 := GenKeyID(r)
@@ -598,7 +602,7 @@ func ScenarioPlans(r *mrand.Rand, pool *Pool, n int) []*Plan {
 				op(OpDirectAdd, k), op(OpAddHard, c.ID), op(OpDirectAdd, x.ID), op(OpDirectRemove, k), sign(c.ID, 2), op(OpSigners, 0)}
 		case 4: // several out-of-window certificates next to each other in the agent's listing, others after them
 			p.Class = "scenario-adjacent-invalid"
-			bad := func() string { return core.Pick(r, "past", "future", "zero", "inverted", "one-second-ago", "va-2^63") }
+			bad := func() string { return core.Pick(r, "past", "future", "zero", "inverted", "one-second-ago", "va-2^63", "soon", "just-expired") }
 			var ids []uint64
 			nbad := 2 + r.Intn(3)
 			for j := 0; j < nbad; j++ {
